@@ -59,6 +59,10 @@ def valid(prefix):
             nv += 1
             if nv > 3:
                 return False
+        elif op[0] == 'N':
+            if op[1] >= nv or nv >= 3:
+                return False
+            nv += 1
         elif op[1] >= nv:
             return False
     return prefix[0][0] == 'V'
@@ -77,11 +81,22 @@ def cases(tier):
         q6 = [i for i, (m, sp) in enumerate(FILTERS) if sp in ([], ['A', 'B'], ['X'])]
         seen = set(map(repr, hs))
         hs += [h for h in hist.histories(alpha(q6), 5, valid) if len(h) == 5]
+    # nested views (a filtered view of a filtered view): every history to depth 3 (thorough 4) over 6 filters
+    n6 = [i for i, (m, sp) in enumerate(FILTERS) if sp in (['A'], ['A', 'B'], ['X'])]
+    nalpha = [['V', i] for i in n6] + [['N', j, i] for j in range(2) for i in n6] + [['R', j] for j in range(3)] + [['T', j] for j in range(3)]
+    nested = [h for h in hist.histories(nalpha, 3 if tier == 'quick' else 4, valid) if any(op[0] == 'N' for op in h)]
     for fname in ('pair', 'eam', 'fs', 'adp'):
-        for h in hs:
-            if not any(op[0] != 'V' for op in h):
+        for h in hs + nested:
+            if not any(op[0] in 'RT' for op in h):
                 continue                      # nothing observed
-            out.append(dict(kind='history', file=fname, ops=h))
+            out.append(dict(kind='history', file=fname, ops=h, container='fresh'))
+            nv = sum(1 for op in h if op[0] in 'VN')
+            if nv >= 2 and len(h) <= 4 and h[-1][0] in 'RT' and h[-1][1] < nv - 1 and not any(op[0] == 'N' for op in h):
+                # the caller re-uses ONE list object for the species of successive views (or passes a tuple / a one-shot iterator)
+                out.append(dict(kind='history', file=fname, ops=h, container='shared'))
+            if nv == 1 and len(h) <= 3:
+                out.append(dict(kind='history', file=fname, ops=h, container='tuple'))
+                out.append(dict(kind='history', file=fname, ops=h, container='iterator'))
     for fname in ('pair', 'eam', 'fs', 'adp'):
         for fi in range(len(FILTERS)):
             for tgt in TARGETS[fname]:
@@ -111,11 +126,15 @@ def tabulate(cp):
 
 
 def reference(fname, fi):
-    key = (fname, fi)
+    """fi: a filter index or a tuple of filter indices applied one after the other (nested views)"""
+    chain = fi if isinstance(fi, tuple) else (fi,)
+    key = (fname, chain)
     if key not in _refcache:
         from atsim.potentials.config import ConfigParser
-        mode, S = FILTERS[fi]
-        edited = filter_species(get_file(fname), S, mode == 'exclude')
+        edited = get_file(fname)
+        for f_ in chain:
+            mode, S = FILTERS[f_]
+            edited = filter_species(edited, S, mode == 'exclude')
         cp = ConfigParser(io.StringIO(edited.render()))
         lists = {a: getattr(cp, a) for a in ATTRS[fname]}
         _refcache[key] = (lists, tabulate(cp), edited)
@@ -131,17 +150,29 @@ def run_history(case):
     states = []
     read = []
     trans = 0
+    shared = []
+    kind = case.get('container', 'fresh')
     for step, op in enumerate(case['ops']):
         trans += 1
-        if op[0] == 'V':
-            mode, S = FILTERS[op[1]]
-            views.append(FilteredConfigParser(base, **{mode: list(S)}))
-            vf.append(op[1])
+        if op[0] in 'VN':
+            mode, S = FILTERS[op[-1]]
+            if kind == 'shared':
+                shared[:] = list(S)
+                cont = shared
+            elif kind == 'tuple':
+                cont = tuple(S)
+            elif kind == 'iterator':
+                cont = iter(list(S))
+            else:
+                cont = list(S)
+            parent = base if op[0] == 'V' else views[op[1]]
+            views.append(FilteredConfigParser(parent, **{mode: cont}))
+            vf.append((op[1],) if op[0] == 'V' else vf[op[1]] + (op[2],))
             read.append(0)
         else:
             j = op[1]
             lists, tabref, _e = reference(fname, vf[j])
-            mode, S = FILTERS[vf[j]]
+            mode, S = 'chain', [FILTERS[x] for x in vf[j]]
             read[j] = 1
             if op[0] == 'R':
                 for a in ATTRS[fname]:
@@ -158,7 +189,7 @@ def run_history(case):
                     sig = 'tabulation-differs-from-edited-file' if len(vf) == 1 else 'tabulation-views-interfere'
                     viol.append(dict(sig=sig, msg='file %s, history %s: tabulating through view %s=%r gives %s, the hand-edited file gives %s'
                                      % (fname, describe(case['ops']), mode, S, brief(got), brief(tabref)), detail={}))
-        states.append('%s|%s|%s' % (fname, ','.join(map(str, vf)), ''.join(map(str, read))))
+        states.append('%s|%s|%s|%s' % (fname, ','.join('.'.join(map(str, c)) for c in vf), ''.join(map(str, read)), kind))
         if viol:
             break
     return dict(outcome='ok:history:%d' % len(case['ops']) if not viol else 'violation', nontrivial=len(vf) >= 2, evals=trans,
@@ -177,6 +208,8 @@ def describe(ops):
     for op in ops:
         if op[0] == 'V':
             out.append('V(%s=%r)' % FILTERS[op[1]])
+        elif op[0] == 'N':
+            out.append('N(view %d, %s=%r)' % ((op[1],) + FILTERS[op[2]]))
         else:
             out.append('%s(view %d)' % (op[0], op[1]))
     return ' '.join(out)
